@@ -243,9 +243,15 @@ def _felems(p, res):
         al = R.pow(2, 1)
         elems = sorted(set([0, 1] + [R.pow(2, i) for i in _structured(m)] + [R.pow(2, (N - 1) // d) for d in _structured(m) if (N - 1) % d == 0]))
         exps = [0, 1, 2, 3, 5, N - 2, N - 1, N, N + 1]
+    held = []        # results are VALUES: every result object is looked at again after all other calls have been made
     for a in elems:
         A = F(a)
         res.ev(1, nontrivial=1 if a > 1 else 0, transitions=len(exps) + 5)
+        if len(held) < 4096:
+            try:
+                held.append((a, A.conjugates(), A * A, A + F(1), (A ** 3)))
+            except Exception:  # noqa: BLE001  (reported by the clauses below)
+                pass
         # power == repeated product (by the reference built on kaira's modulus)
         for e in exps:
             pv = (A ** e).value
@@ -284,6 +290,14 @@ def _felems(p, res):
             if getattr(ev, "value", ev) != 0:
                 res.viol("gf", cfg, "minpoly", f"minimal_polynomial({a}).evaluate(a) -> {getattr(ev, 'value', ev)}", [a])
             res.outcome((m, mp))
+    for a, cj_obj, sq, plus1, cube in held:
+        got = ([c.value for c in cj_obj], sq.value, plus1.value, cube.value)
+        want = (R.conjugates(a), R.mul(a, a), a ^ 1, R.pow(a, 3))
+        if got != want:
+            which = ["conjugates", "product", "sum", "power"][[g != w for g, w in zip(got, want)].index(True)]
+            res.viol("gf", cfg, "value-semantics", f"the {which} result obtained for element {a} reads {str(got[[g != w for g, w in zip(got, want)].index(True)])[:60]} after later calls on other elements; "
+                     f"it was / should be {str(want[[g != w for g, w in zip(got, want)].index(True)])[:60]}", [a])
+            break
     # trace additivity on the explored set (pairs with a fixed partner)
     if irreducible:
         for a in elems[:64]:
